@@ -246,6 +246,27 @@ func judgeC06(hi *Hist) []*Violation {
 			hist[op.Op.Bar] = append(hist[op.Op.Bar], prioAssign{op.Inv, op.Ret, int(op.Op.N), op.Op.Flag, false})
 		}
 	}
+	// the container can only be done once every bar has finished: a priority call that returned before
+	// the last bar's finishing call was even invoked cannot have lost the race with shutdown
+	doneNotBefore := -1
+	for _, bf := range facts {
+		if !bf.Added {
+			continue
+		}
+		if bf.TermInv < 0 {
+			doneNotBefore = len(hi.Log) // some bar was never finished by a client call (cancelled?): be permissive
+			if hi.WaitIn >= 0 {
+				doneNotBefore = hi.WaitIn
+			}
+			break
+		}
+		if bf.TermInv > doneNotBefore {
+			doneNotBefore = bf.TermInv
+		}
+	}
+	if hi.WaitIn > doneNotBefore {
+		doneNotBefore = hi.WaitIn
+	}
 	lastFrameOf := map[int]int{}
 	firstFrameOf := map[int]int{}
 	for k, f := range frames {
@@ -327,7 +348,7 @@ func judgeC06(hi *Hist) []*Violation {
 			sort.Slice(ord, func(i, j int) bool { return ord[i].ret < ord[j].ret })
 			for _, a := range ord {
 				settledBefore := a.ret < lo || (k == 0 && a.ret < hiB)
-				maybe := a.maybe || (hi.WaitIn >= 0 && a.ret > hi.WaitIn)
+				maybe := a.maybe || (hi.WaitIn >= 0 && a.ret > doneNotBefore)
 				switch {
 				case settledBefore && !maybe:
 					m.set = []int{a.prio}
